@@ -312,7 +312,7 @@ def _cell(rec, sim, case, pi, pt, mb, au, tr, cookie_expect, out, okind,
             V(rec, 'advertised-not-accepted', 'OPEN advertises websocket with '
               'allow_upgrades=%r transports=%r available=%r' % (
                   au, tr, ws_avail), case)
-    if rec.evaluations % 2003 == 0:
+    if rec.evaluations % 2003 == 1:
         rec.sample({'cell': describe(case['cell']), 'open': o})
 
 
